@@ -670,6 +670,7 @@ func (e *Engine) exec(fr *frame, in ssa.Instruction) {
 		if m.obj == nil {
 			panic(e.raise("nilmap", "assignment to entry in nil map", x.Pos()))
 		}
+		e.raceAccessMap(m.obj, true, x.Pos())
 		e.mapSet(m.obj, e.eval(fr, x.Key), e.eval(fr, x.Value))
 	case *ssa.Next:
 		fr.env[x] = e.next(fr, x)
@@ -1305,6 +1306,7 @@ func (e *Engine) lookup(fr *frame, x *ssa.Lookup) Value {
 		k := e.eval(fr, x.Index)
 		i := -1
 		if b.obj != nil {
+			e.raceAccessMap(b.obj, false, x.Pos())
 			i = e.mapFind(b.obj, k)
 		}
 		var v Value
@@ -1326,6 +1328,7 @@ func (e *Engine) rangeInit(fr *frame, x *ssa.Range) Value {
 	case *MapV:
 		it := &MapIter{}
 		if b.obj != nil {
+			e.raceAccessMap(b.obj, false, x.Pos())
 			it.m = b.obj
 			for i := range b.obj.keys {
 				if !b.obj.dead[i] {
